@@ -131,6 +131,11 @@ def run_frame(it, st, T, op):
         from .c05 import assume_concrete
         assume_concrete(it, st, vals)          # C05's domain (concrete Sid, A-path-norm); search Sids have no single path
         if not st.feasible(): return 'ok'
+    if T is not None:
+        # the object goes through the real TypedSid._init (as the factory does), so attributes a constructor adds exist here too
+        try: init = it.getattr(x, '_init')
+        except Raised: init = None
+        if init is not None: it.call(init, [x.attrs['_string'], x.attrs['_type'], x.attrs['_fields']], {})
     before = (x.attrs['_type'], x.attrs['_string'], x.attrs['_fields'], [(k, v) for k, v in x.attrs['_fields'].items])
     keys = [k for k, _ in vals]
     it.urlsafe_vars = {a.name for _, v in vals for a in st.norm(v).atoms if isinstance(a, Var)}
@@ -161,6 +166,12 @@ def run_frame(it, st, T, op):
     st.oblige(f'{name}:result-does-not-expose-the-private-fields-dict', not alias, ('C14',))
     if op == 'fields':
         st.oblige(f'{name}:returns-an-equal-private-copy', isinstance(r, PDict) and r is not before[2] and len(r.items) == len(before[3]) and all(a[0] is b[0] and a[1] is b[1] for a, b in zip(r.items, before[3])), ('C14',))
+        if isinstance(r, PDict) and r is not before[2]:
+            # the caller edits the dictionary it got; a second read must be a fresh, unedited copy (a memoised copy would be shared)
+            r.items.append(('__probe__', 'edited'))
+            try: r2 = it.getattr(x, 'fields')
+            except Raised: r2 = None
+            st.oblige(f'{name}:a-second-read-is-a-fresh-copy-unaffected-by-edits-of-the-first', isinstance(r2, PDict) and r2 is not r and r2 is not before[2] and len(r2.items) == len(before[3]) and all(a[0] is b[0] and a[1] is b[1] for a, b in zip(r2.items, before[3])), ('C14',))
     st.observed = {'op': op}
     return 'ok'
 
@@ -204,4 +215,8 @@ def replay(case, ob, inputs):
     if r[0] == 'ret' and isinstance(r[1], dict): r[1]['__probe__'] = 1      # mutation attempt on a returned container
     after = (x.type, x.string, dict(x._fields), id(x._fields))
     ok = r[0] == 'ret' and after == before and not (r[0] == 'ret' and r[1] is x._fields)
+    if ok and op == 'fields':        # second read after the caller edited the first answer
+        r2 = C.call_native(do)
+        ok = r2[0] == 'ret' and r2[1] == before[2] and r2[1] is not r[1]
+        after = after + (r2,)
     return {'confirmed': not ok, 'call': f'x={inputs["x"]!r}; {op}', 'observed': repr((r[0], after))[:300], 'expected': repr(before)[:300]}
